@@ -493,20 +493,23 @@ def rule_g(repo, chk):
                            'no None test possible', key='%s:%s|%s' % dkey)
                     continue
                 # bound to a local?
-                var = None
-                if isinstance(st, ast.Assign) and st.value is c and len(st.targets) == 1 and isinstance(st.targets[0], ast.Name):
-                    var = st.targets[0].id
+                vars_ = []
+                if isinstance(st, ast.Assign) and st.value is c and all(isinstance(t, ast.Name) for t in st.targets):
+                    vars_ = [t.id for t in st.targets]          # a = b = nav(): both names hold the result
                 elif isinstance(p, ast.NamedExpr) and p.value is c:
-                    var = p.target.id
-                if var is None:
+                    vars_ = [p.target.id]
+                if not vars_:
                     chk.ob('C01.g', True, c, 'result of `%s` is not dereferenced here (compared / returned / passed on)' % short(c, 50))
                     continue
-                uses = derefs_of(f, var)
+                var = '/'.join(vars_)
+                uses = []
                 bad = []
-                for u in uses:
-                    w = none_safe(f, u, var, st if isinstance(st, ast.Assign) else None)
-                    if w is not None:
-                        bad.append((u, w))
+                for v_ in vars_:
+                    for u in derefs_of(f, v_):
+                        uses.append(u)
+                        w = none_safe(f, u, v_, st if isinstance(st, ast.Assign) else None)
+                        if w is not None:
+                            bad.append((u, w))
                 if not bad:
                     chk.ob('C01.g', True, c, '`%s = %s`: every dereference of `%s` is None-guarded (%d uses)' % (var, short(c, 40), var, len(uses)))
                 else:
